@@ -67,6 +67,7 @@ var PodSels = []*wm.Sel{
 	me("zzz", "NotIn", "q"), {ML: map[string]string{"app": "b"}, ME: []wm.Req{{Key: "tier", Op: "In", Vals: []string{"x"}}}},
 	// the empty string is a label value like any other: it is not "key absent"
 	ml("canary", ""), me("canary", "NotIn", ""),
+	{ML: map[string]string{"app": "a"}, ME: []wm.Req{{Key: "canary", Op: "DoesNotExist"}}},
 }
 var NsSels = []*wm.Sel{
 	{}, ml("team", "a"), ml(wm.NSNameKey, "ns2"), me("team", "NotIn", "a"), me("team", "Exists"),
@@ -284,14 +285,15 @@ func Scopes(quick bool) []Scope {
 
 	// S-sel + S-ip: one policy, one rule, selector / ipBlock peers
 	peerSets := PeerSets()
-	polSels := []*wm.Sel{{}, ml("app", "a"), me("app", "NotIn", "a"), me("tier", "DoesNotExist"), me("zzz", "NotIn", "q"), me("app", "In", "a", "b"), me("tier", "Exists")}
+	// (third entry) matchLabels and matchExpressions together: ns1/w1 has the label but fails the expression, ns2/w1 satisfies both
+	polSels := []*wm.Sel{{}, ml("app", "a"), {ML: map[string]string{"app": "a"}, ME: []wm.Req{{Key: "canary", Op: "Exists"}}}, me("app", "NotIn", "a"), me("tier", "DoesNotExist"), me("zzz", "NotIn", "q"), me("app", "In", "a", "b"), me("tier", "Exists")}
 	selPorts := [][]wm.NPPort{nil, {{HasPort: true, Num: 80}}}
 	add("S-sel-ip", fw.Full, func(c *fw.Ctx) *wm.World {
 		dir := fw.Pick(c, []string{"Ingress", "Egress"}, "direction")
 		nsc := fw.Pick(c, NsConfigs, "namespace objects")
 		nps := len(polSels)
 		if quick {
-			nps = 5
+			nps = 6
 		}
 		ps := polSels[c.Choose(nps, "policy podSelector")]
 		polNS := fw.Pick(c, []string{"ns1", "ns2"}, "policy namespace")
@@ -310,6 +312,29 @@ func Scopes(quick bool) []Scope {
 			np.Ingress = []wm.NPRule{rl}
 		}
 		w.NPs = []wm.NP{np}
+		return w
+	})
+
+	// S-twins: two different workloads of one namespace with exactly the same pod labels (blue / green) that differ in what
+	// their container-port names mean; anything computed once per (namespace, labels) is visible here
+	add("S-twins", fw.Full, func(c *fw.Ctx) *wm.World {
+		dir := fw.Pick(c, []string{"Ingress", "Egress"}, "direction")
+		pa := c.Choose(len(CPortAlpha), "container ports of the blue twin")
+		pb := c.Choose(len(CPortAlpha), "container ports of the green twin")
+		pi := c.Choose(len(portSets), "rule ports")
+		w := &wm.World{
+			NSs: []wm.NS{{Name: "ns1", Labels: map[string]string{"team": "a"}, HasObj: true}},
+			WLs: []wm.Workload{
+				{Kind: "Deployment", NS: "ns1", Name: "w-blue", Labels: map[string]string{"app": "a"}, Ports: CPortAlpha[pa], Replicas: 1},
+				{Kind: "Deployment", NS: "ns1", Name: "w-green", Labels: map[string]string{"app": "a"}, Ports: CPortAlpha[pb], Replicas: 2},
+				{Kind: "Deployment", NS: "ns1", Name: "client", Labels: map[string]string{"app": "c"}, Replicas: 1},
+			},
+		}
+		if dir == "Ingress" {
+			w.NPs = []wm.NP{{NS: "ns1", Name: "p", PodSel: *ml("app", "a"), Types: []string{"Ingress"}, Ingress: []wm.NPRule{{Peers: []wm.NPPeer{{Pod: ml("app", "c")}}, Ports: portSets[pi]}}}}
+		} else {
+			w.NPs = []wm.NP{{NS: "ns1", Name: "p", PodSel: *ml("app", "c"), Types: []string{"Egress"}, Egress: []wm.NPRule{{Peers: []wm.NPPeer{{Pod: ml("app", "a")}}, Ports: portSets[pi]}}}}
+		}
 		return w
 	})
 
